@@ -155,7 +155,7 @@ func (e *env) judge(c *cell, o observation) {
 
 	full := hsize + optLen(c.form, c.sh.OwnOPT)
 	rel := relClass(full, limit)
-	class := strings.Join([]string{fam, fmt.Sprint(c.path.cfg), advClass(c.form.Adv), c.form.Name,
+	class := strings.Join([]string{fam, fmt.Sprint(c.path.cfg), advClass(c.form.Adv), c.form.Name, c.form.TTLVar,
 		fmt.Sprint("own", c.sh.OwnOPT), c.sh.Mix, c.sh.Kind, rel}, "|")
 
 	// B2, framing half: decided by the session.
@@ -248,7 +248,17 @@ func (e *env) judge(c *cell, o observation) {
 		default:
 			op := opts[0]
 			if op.Version() != 0 {
-				e.violation(c, o, "opt-version:"+own, fmt.Sprintf("EDNS version %d in the response", op.Version()), nil)
+				e.violation(c, o, "opt-version:"+own, fmt.Sprintf("EDNS version %d in the response (the request carried version %d)", op.Version(), c.form.Version),
+					map[string]any{"observed_version": op.Version(), "request_version": c.form.Version})
+			} else {
+				r.Bucket(fmt.Sprintf("opt_version_0:%s:request-version=%d", own, c.form.Version), 1)
+			}
+			// The rest of the TTL field is not covered by the statement.
+			if x := op.ExtendedRcode() >> 4; x != 0 && c.form.ExtRcode != 0 {
+				r.Bucket("opt_ttl_echo_not_in_statement:ext-rcode:"+own, 1)
+			}
+			if z := op.Hdr.Ttl & 0x7fff; z != 0 {
+				r.Bucket("opt_ttl_echo_not_in_statement:z-bits:"+own, 1)
 			}
 			if got := int(op.UDPSize()); got != c.form.Adv {
 				key := "opt-udp-size:" + own
